@@ -179,14 +179,15 @@ Definition no_resurrection_full : Prop := forall s ts c t k written,
   creates c = Some (t, k, written) -> noe ts s t k ->
   forall sb x, el_get (fst (step Compact s ts c)) t k ts sb = Some x -> In sb written.
 
-(* equal timestamps: the re-created hash shows the member of its cleared predecessor *)
+(* equal timestamps: the re-created hash shows the member of its expired predecessor *)
 Theorem no_resurrection_full_refuted : ~ no_resurrection_full.
 Proof.
   intros H.
   set (T := 1600000000 * ns_per_sec + 5).
-  set (s := fst (step Compact (fst (step Compact empty_store T (CHSet [1%N] [2%N] [3%N] false))) T (CClear TH [1%N]))).
+  (* HSET at T, HEXPIRE with a non-positive duration at T (expired at once), HSET again at T *)
+  set (s := fst (step Compact (fst (step Compact empty_store T (CHSet [1%N] [2%N] [3%N] false))) T (CExpire TH [1%N] 0))).
   specialize (H s T (CHSet [1%N] [4%N] [5%N] false) TH [1%N] [SB [4%N]] eq_refl).
-  assert (N : noe T s TH [1%N]) by (vm_compute; exact I).
+  assert (N : noe T s TH [1%N]) by (vm_compute; reflexivity).
   specialize (H N (SB [2%N]) (EB [3%N])). vm_compute in H.
   destruct (H eq_refl) as [X | []]. discriminate X.
 Qed.
